@@ -5,6 +5,8 @@ all graphs, over NumPy promotion tables regenerated from the installed NumPy; em
 results carry the same dtype; timestamp / string facts; the unchanged code refuted).
 Tie: Model/ScaleDtype.v is evaluated inside Coq on the same property dictionaries and
 compared with the observed channel.dtype and the dtype of a full read.
+File tie: Proofs/DtypeFile.v declared_dtype_file (Props/C14_file.v) is evaluated on the BYTES of a sample of the
+generated files and compared with channel.dtype; the dtype of the array its scaled read returns with read_data().
 Direct oracle on the implementation: every array returned by every read operation (eager
 and lazy) has channel.dtype (modulo byte order), empty == non-empty dtype, full reads have
 len(channel) elements.
@@ -32,6 +34,13 @@ np.seterr(all="ignore")
 IMPORTS = ("From Coq Require Import PrimFloat.\n"
            "From NpTdms Require Import Gen.NumpyPromote Model.ScaleGraph Model.ScaleDtype.\n")
 CASE_T = "props * props * props * rawkind * bool * list (nat * dtype) * option string * option string"
+# file tie (Proofs/DtypeFile.v file_dtype_code): channel.dtype computed by the Coq model from the very
+# BYTES npTDMS read (metadata pass, hierarchy, properties -> dictionaries, group-path lookup, TDMS type ->
+# raw kind, DAQmx scaler types -> dtypes), and the dtype of the array the file-level scaled read returns
+FILE_IMPORTS = ("From Coq Require Import ZArith String.\n"
+                "From NpTdms Require Import Base.Bytes Model.ScaleDtype Proofs.DtypeFile.\n")
+FILE_CASE_T = "bytes * bytes * bool * option string * option string"
+CHANNEL_PATH = b"/'g'/'c'"
 RAW = L.RAW
 KINDS = L.NUMERIC + ["string", "timestamp", "timestamp-raw", "untyped"]
 NONNUMERIC = ("string", "timestamp", "timestamp-raw")
@@ -335,7 +344,10 @@ def run_case(run, case, stats):
     term = "(%s, %s, %s, %s, %s, %s, %s, %s)" % (
         L.cprops(case["chan"]), L.cprops(case["group"]), L.cprops(case["root"]), coq_kind(kind),
         "true" if raw_ts else "false", scalers, L.copt(odecl, L.cstring), L.copt(oact, L.cstring))
-    return term, case, (odecl, oact), bool(fails), "%s-%s" % (kind, gk)
+    fterm = "(%s, %s, %s, %s, %s)" % (
+        H.chex(content), H.chex(CHANNEL_PATH), "true" if raw_ts else "false",
+        L.copt(odecl, lambda x: L.cstring(x) + "%string"), L.copt(oact, lambda x: L.cstring(x) + "%string"))
+    return term, case, (odecl, oact), bool(fails), "%s-%s" % (kind, gk), fterm
 
 
 def correspondence(run, items, stats):
@@ -353,7 +365,7 @@ def correspondence(run, items, stats):
     stats["outside_model_by_raw_type"] = outside
     run.cov["traces_validated_against_impl"] += len(terms) - len(unc)
     for i in bad[:3]:
-        term, case, obs, failed, key = items[i]
+        term, case, obs, failed, key = items[i][:5]
         if failed:
             continue            # already reported with the input as an ordinary violation
         rc, out = H.coq_print_terms(run.pid, IMPORTS, [
@@ -364,6 +376,50 @@ def correspondence(run, items, stats):
         run.violation("corr-" + key, "Model/ScaleDtype.v and npTDMS disagree (%s): implementation dtype=%s, "
                       "full read=%s" % (key, obs[0], obs[1]), case, kind="correspondence-broken",
                       theorem="Model.ScaleDtype.chan_dtype/read_dtype vs TdmsChannel.dtype", actual=list(obs),
+                      model=out[-2000:], no_input=True)
+
+
+def file_dtype_tie(run, items, stats):
+    """Proofs/DtypeFile.v on the file BYTES: declared_dtype_file (what Props/C14_file.v's theorems are
+    about) against channel.dtype, and the dtype of scaled_read_eager's array against read_data().dtype, on a
+    sample of the generated files: every raw kind, every placement level, DAQmx and zero-length channels."""
+    n = run.pick(260, 2600)
+    step = max(1, len(items) // n)
+    picked = [t for t in items[::step] if not t[3]]      # failing inputs are reported as violations already
+    # the non-numeric / untyped / DAQmx / zero-length cases are few: a fixed number of each on top
+    seen = {id(t) for t in picked}
+    cap = run.pick(24, 100000)
+    taken = {}
+    for t in items:
+        cat = "zero-length" if t[1]["n"] == 0 else t[1]["kind"]
+        if id(t) in seen or t[3] or not (cat == "zero-length" or cat in ("untyped", "daqmx") + NONNUMERIC):
+            continue
+        if taken.get(cat, 0) < cap:
+            taken[cat] = taken.get(cat, 0) + 1
+            picked.append(t)
+    cases = [t[5] for t in picked]
+    bad, errors = H.run_sharded(run.pid, FILE_IMPORTS, FILE_CASE_T, "file_dtype_ok", cases, shard=24, tag="fdt")
+    run.corr_errors(errors)
+    unc, errors2 = H.run_sharded(run.pid, FILE_IMPORTS, FILE_CASE_T, "file_dtype_covered", cases, shard=24,
+                                 tag="fcov")
+    run.corr_errors(errors2)
+    stats["file_tie_cases"] = len(cases)
+    stats["file_tie_covered"] = len(cases) - len(unc)
+    kinds = {}
+    for i, t in enumerate(picked):
+        if i not in set(unc):
+            kinds[t[1]["kind"]] = kinds.get(t[1]["kind"], 0) + 1
+    stats["file_tie_covered_by_raw_type"] = kinds
+    run.cov["traces_validated_against_impl"] += len(cases) - len(unc)
+    for i in bad[:3]:
+        term, case, obs, failed, key, fterm = picked[i]
+        rc, out = H.coq_print_terms(run.pid, FILE_IMPORTS, [
+            "let '(data, path, ts, _, _) := (%s) : %s in (declared_dtype_file data path ts, "
+            "raw_dtype_file data path ts, len_file data path)" % (fterm, FILE_CASE_T)], tag="fdshow%d" % i)
+        run.violation("corr-file-" + key, "Proofs/DtypeFile.v on the file bytes and npTDMS disagree (%s): "
+                      "implementation dtype=%s, full read=%s" % (key, obs[0], obs[1]), case,
+                      kind="correspondence-broken",
+                      theorem="Proofs.DtypeFile.declared_dtype_file vs TdmsChannel.dtype", actual=list(obs),
                       model=out[-2000:], no_input=True)
 
 
@@ -468,6 +524,8 @@ def main():
             item = run_case(run, case, stats)
             stats.pop("shapes")
             correspondence(run, [item], stats)
+            if not item[3]:
+                file_dtype_tie(run, [item], stats)
         else:
             print("replay: nothing to re-run for", case.get("op"))
         run.finish()
@@ -475,6 +533,7 @@ def main():
     cases = all_cases(run, rng)
     items = [run_case(run, c, stats) for c in cases]
     correspondence(run, items, stats)
+    file_dtype_tie(run, items, stats)
     order_violations(run)
     run.cov["distinct_nontrivial"] = len(stats.pop("shapes"))
     run.cov["exhaustive"] = True
@@ -494,7 +553,14 @@ def main():
         "the promotion tables are those of the installed NumPy (regenerated by harness/gen/gen_promote.py on every run)",
         "reads that raise are not successful reads; only successful ones are judged",
         "arithmetic scaling of non-numeric data is the recorded finding dtype-nonnumeric-arith-scale",
-        "len(full read) == len(channel) is checked on the implementation only (reader accounting belongs to C01/C06)"]
+        "len(full read) == len(channel): proved on file bytes for the scaled reads (Props/C14_file.v "
+        "full_read_length_file, from C14_read.full_read_length and C13's elementwise) and checked on the "
+        "implementation for every read operation here",
+        "channel.dtype as a function of the file BYTES (Props/C14_file.v declared_dtype_file: metadata pass, "
+        "hierarchy, properties -> dictionaries, group-path lookup, TDMS type -> raw kind, DAQmx scaler types) "
+        "is compared with npTDMS on %d of the generated files (%d inside the model), together with the dtype "
+        "of the array the file-level scaled read returns" % (stats.get("file_tie_cases", 0),
+                                                             stats.get("file_tie_covered", 0))]
     run.finish()
 
 
